@@ -21,6 +21,7 @@
                           typedpy commits 5e8a8ad / d7f6fe4 now carry positive theorems.
 -/
 import TypedpyModel.Lemmas.Alias
+import TypedpyModel.Spec.AliasScope
 import TypedpyModel.Generated.Aliasing
 import TypedpyModel.Pinned.Aliasing
 namespace Typedpy.C19
@@ -173,38 +174,6 @@ theorem setattr_value_fresh (M : Kind → Cat → Mode) (fuel : Nat) (s : Shape)
 
 /-! ## part 3 — the table -/
 
-/-- the retained-input clause of the statement speaks about typed fields given plain data: untyped content
-    (`Anything`, elements of untyped collections, undeclared keys, whatever a `NotField` lets through) and
-    Structure instances passed by reference (ClassReference) are shared by design -/
-def inScopeSite (op : OpK) (k : Kind) : Bool :=
-  !((op == .construct || op == .setattr || op == .deserialize) &&
-    (k == .any || k == .notF || (k == .struct && op != .deserialize)))
-
-def _root_.Typedpy.Alias.AliasRow.inScope (r : AliasRow) : Bool := inScopeSite r.op r.kind
-
-/-- a row is safe: no in-place edit of the argument, the two readings of the code agree, nothing handed on -/
-def _root_.Typedpy.Alias.AliasRow.safe (r : AliasRow) : Bool := !r.argMutated && r.agree && r.mode.copies
-
-/-- the known-finding rows (same sites as the keys in known_findings.json) -/
-def knownRows : List (OpK × Kind × Cat) := [
-  -- OneOf / AllOf store the caller's object, not the option's normalised copy
-  (.construct, .oneOf, .coll), (.construct, .oneOf, .inline), (.construct, .oneOf, .wrap),
-  (.construct, .allOf, .coll), (.construct, .allOf, .inline), (.construct, .allOf, .wrap),
-  (.setattr, .oneOf, .coll), (.setattr, .oneOf, .inline), (.setattr, .oneOf, .wrap),
-  (.setattr, .allOf, .coll), (.setattr, .allOf, .inline), (.setattr, .allOf, .wrap)]
-
-/-- rows that were findings of the first round and were repaired in typedpy: the `return value` short cuts
-    of Array/Deque/Map.serialize (commit 5e8a8ad: fast serialization and `<field>.serialize` handed out the
-    stored collection) and the Set field without `items` (commit d7f6fe4: kept the caller's set) -/
-def fixedRows : List (OpK × Kind × Cat) := [
-  (.fieldSerialize, .array, .number), (.fieldSerialize, .array, .string), (.fieldSerialize, .array, .untyped),
-  (.fieldSerialize, .deque, .untyped), (.fieldSerialize, .map, .untyped),
-  (.fastSerialize, .array, .number), (.fastSerialize, .array, .string), (.fastSerialize, .array, .untyped),
-  (.fastSerialize, .deque, .untyped), (.fastSerialize, .map, .untyped),
-  (.construct, .set, .untyped), (.setattr, .set, .untyped)]
-
-def isKnown (r : AliasRow) : Bool := knownRows.contains (r.op, r.kind, r.cat)
-
 def TablesOk (tbl : List AliasRow) : Prop := ∀ r, r ∈ tbl → (r.safe || !r.inScope || isKnown r) = true
 
 /-- obligation re-checked against the regenerated table on every run: a new aliasing / mutating site, or a
@@ -285,13 +254,6 @@ theorem safeFields_of_sites (tbl : List AliasRow) (op : OpK) :
     have h' := all_append h
     simp only [safeFields, safeShape_of_sites tbl op s h'.1, safeFields_of_sites tbl op rest h'.2, Bool.and_self]
 end
-
-/-- a site the statement speaks about and that is not a listed finding (a site the table does not know is
-    never admitted) -/
-def admitted (tbl : List AliasRow) (op : OpK) (kc : Kind × Cat) : Bool :=
-  match lookupRow tbl op kc.1 kc.2 with
-  | some r => r.inScope && !isKnown r
-  | none => false
 
 theorem lookupRow_mem {tbl : List AliasRow} {op : OpK} {k : Kind} {c : Cat} {r : AliasRow}
     (h : lookupRow tbl op k c = some r) : r ∈ tbl := by
